@@ -24,7 +24,7 @@ document element is refused by `read_event`, which keeps the nesting depth, sinc
 normalises the line ends of every text piece and CDATA section before references are resolved, since d365e05;
 attributes: `SerializeContent::attributes` / `start_of` / `attr_value` of `xml/ser.rs`, `Deserializer::attribute` of
 `xml/de.rs` over quick-xml's attribute iterator, since 680006e; `GetBucketLocationOutput` is read from exactly one
-`LocationConstraint` element, since d00ca17; comments: quick-xml's `check_comments`, since ce2599c).
+`LocationConstraint` element, since d00ca17; comments: quick-xml's `check_comments`, since ce2599c; `]]>` in a text event, since fc97754).
 The lookahead state `peeked` / `next_slot` of `Deserializer` is the head of the remaining event list here:
 `peek_event` = look at the head, `consume_peeked` / `next_event` = drop it; `Empty` is expanded by `deEvents`.
 The field `start` of `Deserializer` (the start tag that was entered last, since 680006e) is read by generated code only
@@ -901,18 +901,28 @@ def stripBom (b : Bytes) : Bytes :=
 
 def tokenize (doc : Bytes) : List QEv := tokLoop (doc.length + 1) (stripBom doc) []
 
+/-- `x.windows(3).any(|w| w == b"]]>")` on a text event: does some suffix begin with `]]>`? -/
+def hasCdataEnd : Bytes → Bool
+  | [] => false
+  | b :: bs => startsWith [93, 93, 62] (b :: bs) || hasCdataEnd bs
+
 /-- `Deserializer::read_event` iterated: skip comments, PIs, declarations; expand `Empty` through `next_slot`.
 `depth` is the field of the same name: the number of elements open at the reader's position (`Start` +1, `End` −1
 saturating, `Empty` ±0). Outside the document element (`depth == 0`) character data other than white space
 (space, tab, CR, LF) and every CDATA section make `read_event` return `DeError::InvalidContent` (since d51737b;
 before, `expect_start` / `expect_eof` / `for_each_element` skipped them: finding F-xml-6, fixed). An error ends
-the run: every caller propagates it. -/
+the run: every caller propagates it. A text event that holds `]]>` — which XML 1.0 allows only as the end of a CDATA
+section — is refused with `DeError::InvalidContent` as well (since fc97754; before, it passed: finding
+`xml-illformed-accepted:cdata-end`, fixed). -/
 def deEventsAt : Nat → List QEv → List Ev
   | _, [] => []
   | d, .start n r :: t => .start n r :: deEventsAt (d + 1) t
   | d, .stop n :: t => .stop n :: deEventsAt (d - 1) t
   | d, .empty n r :: t => .start n r :: .stop n :: deEventsAt d t
-  | d, .text raw :: t => if d = 0 ∧ raw.all isWs = false then [.bad .invalidContent] else .text raw :: deEventsAt d t
+  | d, .text raw :: t =>
+    if d = 0 ∧ raw.all isWs = false then [.bad .invalidContent]
+    else if hasCdataEnd raw then [.bad .invalidContent]   -- `]]>` in character data (since fc97754)
+    else .text raw :: deEventsAt d t
   | d, .cdata c :: t => if d = 0 then [.bad .invalidContent] else .cdata c :: deEventsAt d t
   | _, .err :: _ => [.bad .invalidXml]
   | d, _ :: t => deEventsAt d t
